@@ -198,6 +198,21 @@ def run(ctx, rep):
                                 d4 = pe.single_def(pl3['local'])
                                 if d4 and d4[0] == 'assign' and d4[3]['k'] == 'use' and d4[3]['op'].get('place') and place_fields(d4[3]['op']['place']) == ['current_token']:
                                     return ('curprec',)
+            # ... the same through copies made for a helper that was spliced in: by what the operand computes
+            def peel(v):
+                for _ in range(12):
+                    if isinstance(v, tuple) and v and v[0] in ('ref', 'deref', 'cast'):
+                        v = v[1]
+                    else:
+                        break
+                return v
+            v = peel(sym(pe, op))
+            if isinstance(v, tuple) and v and v[0] == 'param' and 2 <= v[1] <= pe.arg_count:
+                return ('param', v[1])
+            if isinstance(v, tuple) and v and v[0] == 'call' and v[1].endswith('::precedence') and len(v[2]) == 1:
+                a = peel(v[2][0])
+                if isinstance(a, tuple) and a and a[0] == 'field' and a[2] == 'current_token' and peel(a[1]) == ('param', 1):
+                    return ('curprec',)
             return ('?',)
         a0, a1 = root(t['args'][0]), root(t['args'][1])
         # which way does the loop go on when the comparison is true?
@@ -249,6 +264,8 @@ def run(ctx, rep):
             v_ = c_[0][1] if c_[0][0] == 'switch' else None
             if v_ and v_[0] == 'call' and v_[1].endswith('PartialEq>::eq') and truth(c_) and ('enum', tables.TOKEN, tok('=')) in [deref(p.env, a_) for a_ in v_[2]]:
                 opassign = True
+            if c_[0][0] == 'variant' and c_[0][2] == tables.TOKEN and c_[1] == tok('=') and len(c_[0]) > 3 and 'current_token' in str(c_[0][3]):
+                opassign = True     # `match (self.current_token, &left) { (Token::Assign, ..) => ..`
         if opassign and (P + 'parse_op_assign_expression') not in F.fns:
             continue        # the `a op= e` path (R07.3): its right-hand side is a whole expression
         for i, c in enumerate(p.calls):
@@ -378,6 +395,9 @@ def run(ctx, rep):
             for c in p.constraints:
                 if c[0][0] == 'variant' and c[0][2] == 'ast::Expr' and c[1] == 'Identifier':
                     ident = True
+                # the same test written as a match arm on the token (alone or in a tuple with the left side)
+                if c[0][0] == 'variant' and c[0][2] == tables.TOKEN and c[1] == tok('=') and len(c[0]) > 3 and 'current_token' in str(c[0][3]):
+                    tok_eq = True
             rep.ob(tok_eq and ident, 'R07.3', pi.path, 'op-assign entry', 'entered only when the next token is `=` and the left side is an identifier '
                    '(token test %s, identifier test %s)' % (tok_eq, ident), pi.loc())
             # ... and whatever the operator is: `a op= e` exists for every binary operator (a guard that lists operators drops the
